@@ -8,30 +8,40 @@ import Ptx.Proofs.SearchInv
 namespace Ptx.Search
 open Ptx
 
-theorem ncs_mem_key {h : BranchH} {k : RuleKey} {i : Nat} (hr : h.ncRegistered k i = true) : ∃ p ∈ h.ncs, p.1 = (k, i) := by
-  simp only [BranchH.ncRegistered, List.any_eq_true, beq_iff_eq] at hr
+theorem ncReg_mem {ncs : List ((RuleKey × Nat) × List (Nat × Nat))} {k : RuleKey} {i : Nat} (hr : ncReg ncs k i = true) :
+    ∃ p ∈ ncs, p.1 = (k, i) := by
+  simp only [ncReg, List.any_eq_true, beq_iff_eq] at hr
   exact hr
 
 theorem branchInvQ_of_checks {L : LogicData} {b : Branch} {h : BranchH}
-    (hc : ∀ p ∈ branchChecksQ L b h, p.2 = true) : BranchInvQ L b h := by
+    (hc : ∀ p ∈ branchChecksQ L b h, p.2 = true) : BranchInvQ L b h ∧ TickedQ L b := by
   simp only [branchChecksQ, List.mem_cons, List.not_mem_nil, or_false, forall_eq_or_imp, forall_eq] at hc
-  obtain ⟨h1, h2, h3, h4⟩ := hc
-  refine ⟨?_, ?_, ?_, ?_⟩
+  obtain ⟨h1, h0, h2, h3, h4⟩ := hc
+  refine ⟨⟨?_, ?_, ?_, ?_⟩, ?_⟩
   · intro k i nd hn hk he
     simp only [ckNcRegistered, List.all_eq_true] at h1
     have := h1 (nd, i) (by rw [List.mem_zipIdx_iff_getElem?]; exact hn)
     simp only [hk, he, Bool.not_true, Bool.false_or] at this
     exact this
+  · intro k i hr
+    obtain ⟨p, hp, hpk⟩ := ncReg_mem hr
+    simp only [ckNcKey, List.all_eq_true] at h0
+    have := h0 p hp
+    rw [hpk] at this
+    simp only at this
+    split at this
+    · next nd hnd => exact ⟨nd, hnd, by simpa using this⟩
+    · cases this
   · intro k i hr c hcm
-    obtain ⟨p, hp, hpk⟩ := ncs_mem_key hr
+    obtain ⟨p, hp, hpk⟩ := ncReg_mem hr
     simp only [ckNcDone, List.all_eq_true] at h2
     have := h2 p hp c hcm
     rw [hpk] at this
-    simp only [Bool.or_eq_true, List.contains_iff_mem] at this
+    simp only [Bool.or_eq_true, List.contains_iff_mem, BranchH.nc] at this
     exact this
   · intro k i c hcm
     obtain ⟨p, hp, hpk⟩ := aget_mem_key (m := h.ncs) (k := (k, i)) hcm
-    simp only [ckNcSub, List.all_eq_true] at h3
+    simp only [ckNcSub, List.all_eq_true, BranchH.nc] at h3
     have := h3 p hp c (by rw [hpk]; exact hcm)
     simpa using this
   · intro i hi sn d w r whole l0 hn hrf hw
@@ -44,14 +54,13 @@ theorem branchInvQ_of_checks {L : LogicData} {b : Branch} {h : BranchH}
     · exact Or.inr (Or.inl h5)
     · exact Or.inr (Or.inr h5)
 
-/-- soundness of the run-time check of the quantifier layer -/
-theorem invQ_of_invBadQ {L : LogicData} {s : SState} (h : invBadQ L s = []) : InvQ L s := by
-  intro bi b hh htab hhs hopen
+theorem checksQ_of_invBadQ {L : LogicData} {s : SState} (h : invBadQ L s = []) {bi : Nat} {b : Branch} {hh : BranchH}
+    (htab : s.tab[bi]? = some b) (hhs : s.hs[bi]? = some hh) (hopen : b.closed = false) :
+    ∀ p ∈ branchChecksQ L b hh, p.2 = true := by
   unfold invBadQ at h
   rw [List.flatMap_eq_nil_iff] at h
   have := h (b, bi) (by rw [List.mem_zipIdx_iff_getElem?]; exact htab)
   simp only [hopen, Bool.false_eq_true, ↓reduceIte, hhs] at this
-  apply branchInvQ_of_checks
   intro p hp
   rw [List.filterMap_eq_nil_iff] at this
   have := this p hp
@@ -59,12 +68,23 @@ theorem invQ_of_invBadQ {L : LogicData} {s : SState} (h : invBadQ L s = []) : In
   · next hc => exact hc
   · cases this
 
+/-- soundness of the run-time check of the quantifier layer -/
+theorem invQ_of_invBadQ {L : LogicData} {s : SState} (h : invBadQ L s = []) : InvQ L s := by
+  intro bi b hh htab hhs hopen
+  exact (branchInvQ_of_checks (checksQ_of_invBadQ h htab hhs hopen)).1
+
+/-- … and the branch property `TickedQ` of every open branch -/
+theorem tickedQ_of_invBadQ {L : LogicData} {s : SState} (h : invBadQ L s = []) {bi : Nat} {b : Branch}
+    (htab : s.tab[bi]? = some b) (hopen : b.closed = false) (hlen : s.hs.length = s.tab.length) : TickedQ L b := by
+  have hbi : bi < s.tab.length := by
+    rcases Nat.lt_or_ge bi s.tab.length with h1 | h1
+    · exact h1
+    · rw [List.getElem?_eq_none h1] at htab; cases htab
+  obtain ⟨hh, hhs⟩ : ∃ hh, s.hs[bi]? = some hh := ⟨s.hs[bi]'(by omega), by simp [hlen, hbi]⟩
+  exact (branchInvQ_of_checks (checksQ_of_invBadQ h htab hhs hopen)).2
 
 /-! ### completed ⇒ saturated with quantifier nodes -/
 
-/-- side conditions on the regenerated rows: new-constant rules tick their node, each-constant rules do not -/
-def quantTicksB (L : LogicData) : Bool :=
-  L.rules.all fun kr => (!(kr.2.witness == .newConst) || kr.2.ticks) && (!(kr.2.witness == .eachConst) || !kr.2.ticks)
 
 /-- the worlds that carry sentence nodes (no world = world 0) -/
 def sentWorlds (b : Branch) : List Nat := b.nodes.filterMap fun | .sent _ _ w => some (w.getD 0) | _ => none
@@ -106,7 +126,7 @@ theorem constDoneB_eq {i : Nat} {sn : Sent} {d : Option Bool} {w : Option Nat} {
     constDoneB L b i c = groupsDone b (instGroups whole l0 w (some c) none r) := by
   simp [constDoneB, hi, hrf]
 
-theorem nodeMissing_nil_quant (hQT : quantTicksB L = true) (I : BranchInv L s bi b h) (Q : BranchInvQ L b h)
+theorem nodeMissing_nil_quant (hQT : quantTicksB L = true) (I : BranchInv L s bi b h) (Q : BranchInvQ L b h) (T : TickedQ L b)
     (hb : s.tab[bi]? = some b) (hh : s.hs[bi]? = some h) (ho : b.closed = false)
     (hnone : ∀ r : RuleId, targets L s r bi = [])
     (hq : b.hasQuit = false) (hclim : ∀ w, constExceeded s.maxConsts b w = false) (hcl : b.constList ≠ [])
@@ -145,7 +165,7 @@ theorem nodeMissing_nil_quant (hQT : quantTicksB L = true) (I : BranchInv L s bi
         · rcases I.cacheComplete (.table k) i _ hi (by simp [matchesRule, hk]) (fun _ => h1) with h2 | h2
           · exact absurd h2 hnl
           · rw [hrel] at h2; cases h2
-      rcases Q.tickedQ i hti sn d w r whole l0 hi hrf hw with h1 | h1 | ⟨c, hc, hd⟩
+      rcases T i hti sn d w r whole l0 hi hrf hw with h1 | h1 | ⟨c, hc, hd⟩
       · rw [hq] at h1; cases h1
       · exact absurd h1 hcl
       · rw [constDoneB_eq hi hrf] at hd
@@ -172,9 +192,10 @@ theorem nodeMissing_nil_quant (hQT : quantTicksB L = true) (I : BranchInv L s bi
         · rw [hrel] at h2; cases h2
       have hfi := (List.flatMap_eq_nil_iff.1 hT) i hl
       simp only [hi, hclim, Bool.false_eq_true, ↓reduceIte] at hfi
-      have hun : h.nc k i = [] := by
+      have hun : aget [] h.ncs (k, i) = [] := by
+        have hfi' := hfi
         rcases hu : h.nc k i with _ | ⟨c0, cs⟩
-        · rfl
+        · exact hu
         · exfalso
           simp [hu] at hfi
       have hreg := Q.ncRegistered k i _ hi hk (by simp [isEachConst, hrule, hw])
@@ -192,7 +213,7 @@ theorem nodeMissing_nil_quant (hQT : quantTicksB L = true) (I : BranchInv L s bi
 
 /-- `SatMod` for branches with quantifier nodes: from `Inv` and `InvQ` -/
 theorem satMod_fo (hEW : EachWorldNoTick L) (hQT : quantTicksB L = true) (hmodal : L.modal = true ∨ L.frameRules = [])
-    (hinv : Inv L s) (hinvq : InvQ L s) (hb : s.tab[bi]? = some b) (ho : b.closed = false)
+    (hinv : Inv L s) (hinvq : InvQ L s) (htq : TickedQ L b) (hb : s.tab[bi]? = some b) (ho : b.closed = false)
     (hnone : ∀ r : RuleId, targets L s r bi = [])
     (hq : b.hasQuit = false) (hlim : exceeded s.maxWorlds b = false)
     (hclim : ∀ w, constExceeded s.maxConsts b w = false)
@@ -227,11 +248,11 @@ theorem satMod_fo (hEW : EachWorldNoTick L) (hQT : quantTicksB L = true) (hmodal
     | eachWorld => exact nodeMissing_nil hEW I hb hh ho hnone hq hlim hm (fun r' wh' l' he => by rw [hrf] at he; cases he; exact Or.inr (Or.inr hw))
     | newConst =>
       rcases hcl with hcl | hcl
-      · exact nodeMissing_nil_quant hQT I Q hb hh ho hnone hq hclim hcl hm hrf (Or.inl hw)
+      · exact nodeMissing_nil_quant hQT I Q htq hb hh ho hnone hq hclim hcl hm hrf (Or.inl hw)
       · exact absurd hw (hcl sn d w r whole l0 hm hrf).1
     | eachConst =>
       rcases hcl with hcl | hcl
-      · exact nodeMissing_nil_quant hQT I Q hb hh ho hnone hq hclim hcl hm hrf (Or.inr hw)
+      · exact nodeMissing_nil_quant hQT I Q htq hb hh ho hnone hq hclim hcl hm hrf (Or.inr hw)
       · exact absurd hw (hcl sn d w r whole l0 hm hrf).2
 
 end staticQ
